@@ -324,6 +324,15 @@ theorem f32_ops_monotone (a b c : Nat) (hab : a ≤ b) (hb : b ≤ posInf) (hc :
   ⟨(Dds.F32Mono.fmul_mono_nonneg hab hb hc hc0).1, (Dds.F32Mono.fadd_mono_nonneg hab hb hc).1,
     Dds.F32Mono.toNatSat_mono_nonneg mx hab hb⟩
 
+/-- and the whole conversion `x ↦ (x * K + 0.5) as uN` (`K` a positive finite constant) is monotone for the order of
+the values (`key`; `−0 = +0`) on ALL non-NaN bit patterns -/
+theorem f32_to_unorm_monotone (K mx a b : Nat) (hK : K < posInf) (hK0 : 0 < K) (ha : a < 2 ^ 32) (hb : b < 2 ^ 32)
+    (hna : isNaN a = false) (hnb : isNaN b = false) (h : key a ≤ key b) :
+    toNatSat (fadd (fmul a K) half) mx ≤ toNatSat (fadd (fmul b K) half) mx :=
+  Dds.F32Thr.pipe_mono_key K mx a b hK hK0 ha hb hna hnb h
+example : key 0xBF800000 ≤ key 0x80000000 ∧ key 0x80000000 ≤ key 0 ∧ key 0 ≤ key 0x3F000000 ∧
+    isNaN 0xBF800000 = false := by decide
+
 /-! ### 11-bit, 10-bit floats and the shared-exponent format: all outputs, whole domain -/
 
 /-- every 10-bit float code: F32 is the exact value (`+inf`, NaN for `exp = 31`); U8/U16 are the
